@@ -107,6 +107,19 @@ def gen_graph(rnd, kind, n_poses, n_lm, n_extra, custom=False, fixed_mode='first
     return dict(fixFirst=bool(fix_first), verts=verts, edges=edges)
 
 
+
+def far_vertex(c, rnd):
+    """Move one free point vertex (any free vertex of an R^n graph) far away: its exact Gauss-Newton step is then > 1e3."""
+    fx = [v['fixed'] or (c['fixFirst'] and j == 0) for j, v in enumerate(c['verts'])]
+    in_range = {x - 1 for e in c['edges'] if e['cls'] == 'range' for x in e['vs']}        # (range edges need Pythagorean separations)
+    cand = [j for j, v in enumerate(c['verts']) if not fx[j] and v['k'] in ('R2', 'R3') and j not in in_range]
+    if cand:
+        j = rnd.choice(cand)
+        off = rnd.choice([(2000, -1500, 1200), (-1800, 2400, -700)])
+        c['verts'][j]['t'] = [a + b for a, b in zip(c['verts'][j]['t'], off)]
+    return c
+
+
 def permute(case, rnd):
     """Same graph with a permuted vertex list (edges refer to vertices by position, so they are re-indexed)."""
     n = len(case['verts'])
